@@ -210,6 +210,8 @@ class Validator:
         See https://github.com/Julian/jsonschema/issues/119
         """
 
+        index = None
+
         if not path:
             # error applies to the root type
             d = rootdict
@@ -224,7 +226,7 @@ class Validator:
                 # so report it against the keyword
                 path = list(path)
                 while isinstance(path[-1], int):
-                    path.pop()
+                    index = path.pop()
                 key = path[-1]
                 d = dictutils.findkey(rootdict, *path[:-1])
         else:
@@ -263,6 +265,9 @@ class Validator:
                 pd = d["__position__"]
             else:
                 pd = d["__position__"][key]
+                if isinstance(pd, list) and pd:
+                    # repeated keywords (e.g. PROCESSING) have a position for each occurrence
+                    pd = pd[index] if index is not None and index < len(pd) else pd[0]
 
             error_dict["line"] = pd.get("line")
             error_dict["column"] = pd.get("column")
